@@ -143,13 +143,6 @@ class IntervalTree:
                 for interval in intervals]
 
     def _query(self, query_interval, node, check_extreme=False):
-        # Check this special case: the bounds of the query interval lie outside
-        # of the bounds of this tree:
-        if (check_extreme
-                and IntervalTree.interval_contains(query_interval, self.left)
-                and IntervalTree.interval_contains(query_interval, self.right)):
-            return []  # TODO: Return all intervals
-
         # Let's start with the centered intervals
         intervals = [int(interval[2]) for interval in node.center
                      if IntervalTree.interval_overlaps(interval, query_interval)]
